@@ -101,6 +101,11 @@ KW = ('<units name="W"><unit units="metre"/><unit units="second" exponent="-1"/>
 HINT_DOC = ('<?xml version="1.0" encoding="UTF-8"?>\n<model xmlns="http://www.cellml.org/cellml/2.0#" name="m">' + KW +
             '<component name="c1"><variable name="a" units="kW" interface="public"/></component><component name="c2"><variable name="a" units="metre" interface="public"/></component>'
             '<connection component_1="c1" component_2="c2"><map_variables variable_1="a" variable_2="a"/></connection></model>\n')
+HINT2_DOC = ('<?xml version="1.0" encoding="UTF-8"?>\n<model xmlns="http://www.cellml.org/cellml/2.0#" name="m">'
+             '<units name="mV"><unit prefix="milli" units="volt"/></units><units name="mV2"><unit units="mV" exponent="2"/></units>'
+             '<units name="V2s"><unit units="volt" exponent="2"/><unit units="second"/></units>'
+             '<component name="c1"><variable name="a" units="mV2" interface="public"/></component><component name="c2"><variable name="a" units="V2s" interface="public"/></component>'
+             '<connection component_1="c1" component_2="c2"><map_variables variable_1="a" variable_2="a"/></connection></model>\n')
 WARN_DOC = ('<?xml version="1.0" encoding="UTF-8"?>\n<model xmlns="http://www.cellml.org/cellml/2.0#" name="m">' + KW +
             '<component name="c1"><variable name="a" units="kW"/><variable name="b" units="kW2" initial_value="1"/>'
             '<math xmlns="http://www.w3.org/1998/Math/MathML"><apply><eq/><ci>a</ci><ci>b</ci></apply></math></component></model>\n')
@@ -123,6 +128,16 @@ def scale_reports(chk, lib):
         elif hints != ['3']:
             chk.violation('implementation violates the units algebra: kW = kilo (metre.second^-1) connected to metre: the validator reports a scale mismatch of 10^%s, Units gives 10^3' % hints,
                           {'kind': 'oracle', 'engine': 'files', 'cellml': HINT_DOC, 'why': 'reported scale mismatch %s, expected [3]' % hints}, True)
+        # an exponent on a reference to derived units reaches the scale of the leaves: (milli volt)^2 is 10^-6 volt^2
+        fn = os.path.join(wd, 'h2.cellml'); open(fn, 'w').write(HINT2_DOC)
+        r = subprocess.run([hr, fn], capture_output=True, text=True, timeout=120)
+        hints2 = re.findall(r'multiplication factor of 10\^(-?\d+)', r.stdout)
+        chk.cov['validator_hint_probe_nested_exponent'] = hints2
+        if '=====T2' not in r.stdout:
+            chk.violation('implementation violates the units algebra: the validator crashed on the nested-exponent scale-report probe', {'kind': 'oracle', 'engine': 'files', 'cellml': HINT2_DOC}, True)
+        elif hints2 != ['-6']:
+            chk.violation('implementation violates the units algebra: mV2 = (milli volt)^2 connected to volt^2.second: the validator reports a scale mismatch of 10^%s, Units::scalingFactor(mV2, volt^2) is 10^6 (scale 10^-6)' % hints2,
+                          {'kind': 'oracle', 'engine': 'files', 'cellml': HINT2_DOC, 'why': 'reported scale mismatch %s, expected [-6]' % hints2}, True)
         hg = build_hx('hx_gencode', lib)
         fn = os.path.join(wd, 'w.cellml'); open(fn, 'w').write(WARN_DOC)
         r = subprocess.run([hg, fn, 'C'], capture_output=True, text=True, timeout=120)
